@@ -56,7 +56,7 @@ def plan(tier, seed):
 def floors(tier):
     return {"distinct_nontrivial": 400, "cls:sel:elem": 500, "cls:sel:parent_elem": 500, "cls:sel:elem_parent": 300,
             "cls:cond:none": 200, "cls:cond:elem": 200, "cls:cond:parent": 200, "cls:cond:both": 200, "cls:cond:join": 200, "cls:cond:elem_or": 200, "cls:cond:elem_stacked": 200, "cls:cond:elem_and": 200, "cls:cond:elem_not": 200,
-            "cls:scalar": 200, "cls:plain_scalar_value": 60, "cls:has_empty_list": 500, "cls:has_repeated_element": 500, "re:Flatten(@.*)?\\.enter": 2000}
+            "cls:scalar": 200, "cls:plain_scalar_value": 60, "cls:reevaluated_after_inner_lists_changed": 150, "cls:has_empty_list": 500, "cls:has_repeated_element": 500, "re:Flatten(@.*)?\\.enter": 2000}
 
 
 def gen_world(rng):
@@ -120,56 +120,62 @@ def expected(case, es, ps):
     return out
 
 
-def run(case, es, ps, caching, times=1):
+def build_query(case, es, ps):
+    """-> (query, function encoding its result rows)"""
     from entity_query_language import symbolic_mode, an, entity, set_of, let, and_, or_, not_
     from entity_query_language.entity import flatten
-    from entity_query_language.cache_data import enable_caching, disable_caching
     lab = {id(e): f"E{i}" for i, e in enumerate(es)}
     lab.update({id(p): f"Par{i}" for i, p in enumerate(ps)})
+    with symbolic_mode():
+        p = let(Par, ps)
+        e = flatten(p.one) if case["scalar"] else flatten(p.items)
+        conds = []
+        c = case["cond"]
+        if c in ("elem", "both"):
+            conds.append(e.n > case["thr"])
+        t2 = case.get("thr2", 1)
+        if c == "elem_or":
+            conds.append(or_(e.n > case["thr"], e.n == t2))
+        if c == "elem_stacked":
+            conds += [e.n >= 0, e.n > case["thr"]]
+        if c == "elem_and":
+            conds.append(and_(e.n >= t2, e.n <= case["thr"] + 1))
+        if c == "elem_not":
+            conds.append(not_(and_(e.n > case["thr"], p.k > case["kthr"])))
+        if c in ("parent", "both"):
+            conds.append(p.k > case["kthr"])
+        if c == "join":
+            d = let(E, es[:3])
+            conds.append(e == d)
+        if case["sel"] == "elem":
+            q = an(entity(e, *conds))
+        elif case["sel"] == "parent_elem":
+            q = an(set_of([p, e], *conds))
+        else:
+            q = an(set_of([e, p], *conds))
+
+    def el(v):
+        return lab[id(v)] if id(v) in lab else "scalar:" + repr(v)
+
+    def enc_rows(results):
+        rows = []
+        for r in results:
+            if case["sel"] == "elem":
+                rows.append((el(r),))
+            elif case["sel"] == "parent_elem":
+                rows.append((lab.get(id(r[p]), "?"), el(r[e])))
+            else:
+                rows.append((el(r[e]), lab.get(id(r[p]), "?")))
+        return rows
+    return q, enc_rows
+
+
+def run(case, es, ps, caching, times=1):
+    from entity_query_language.cache_data import enable_caching, disable_caching
     (enable_caching if caching else disable_caching)()
     try:
-        with symbolic_mode():
-            p = let(Par, ps)
-            e = flatten(p.one) if case["scalar"] else flatten(p.items)
-            conds = []
-            c = case["cond"]
-            if c in ("elem", "both"):
-                conds.append(e.n > case["thr"])
-            t2 = case.get("thr2", 1)
-            if c == "elem_or":
-                conds.append(or_(e.n > case["thr"], e.n == t2))
-            if c == "elem_stacked":
-                conds += [e.n >= 0, e.n > case["thr"]]
-            if c == "elem_and":
-                conds.append(and_(e.n >= t2, e.n <= case["thr"] + 1))
-            if c == "elem_not":
-                conds.append(not_(and_(e.n > case["thr"], p.k > case["kthr"])))
-            if c in ("parent", "both"):
-                conds.append(p.k > case["kthr"])
-            if c == "join":
-                d = let(E, es[:3])
-                conds.append(e == d)
-            if case["sel"] == "elem":
-                q = an(entity(e, *conds))
-            elif case["sel"] == "parent_elem":
-                q = an(set_of([p, e], *conds))
-            else:
-                q = an(set_of([e, p], *conds))
-        outs = []
-
-        def el(v):
-            return lab[id(v)] if id(v) in lab else "scalar:" + repr(v)
-        for _ in range(times):
-            rows = []
-            for r in q.evaluate():
-                if case["sel"] == "elem":
-                    rows.append((el(r),))
-                elif case["sel"] == "parent_elem":
-                    rows.append((lab.get(id(r[p]), "?"), el(r[e])))
-                else:
-                    rows.append((el(r[e]), lab.get(id(r[p]), "?")))
-            outs.append(rows)
-        return outs
+        q, enc_rows = build_query(case, es, ps)
+        return [enc_rows(q.evaluate()) for _ in range(times)]
     finally:
         enable_caching()
 
@@ -217,5 +223,31 @@ def check_case(case, ctx):
                         "n_observed": len(got)})
     elif upper != lower and g != upper:
         ctx.count("repeated_element_in_one_list_collapsed")
+    if case["cond"] == "none" and not case["scalar"] and not (miss or extra):
+        # a query without conditions holds no cached truth values: evaluated again after the inner collections changed,
+        # the same query object unnests the collections as they are now
+        ctx.cls("cls:reevaluated_after_inner_lists_changed")
+        from entity_query_language.cache_data import enable_caching, disable_caching
+        q, enc_rows = build_query(case, es, ps)
+        (enable_caching if case["caching"] else disable_caching)()
+        try:
+            first = enc_rows(q.evaluate())
+            for i, p_ in enumerate(ps):
+                if i % 3 == 0:
+                    p_.items.append(es[(i + 2) % 5])
+                elif i % 3 == 1 and p_.items:
+                    p_.items.pop(0)
+                elif p_.items:
+                    p_.items[-1] = es[(i + 1) % 5]
+            second = enc_rows(q.evaluate())
+        finally:
+            enable_caching()
+        exp2 = expected(case, es, ps)
+        up2 = Counter(exp2)
+        lo2 = Counter(expected(case, es, [Par(p.k, list(dict.fromkeys(p.items)), p.one) for p in ps]))
+        g2 = Counter(second)
+        if (lo2 - g2) or (g2 - up2):
+            ctx.fail("STALE_AFTER_DATA_CHANGE", {"missing": list((lo2 - g2).elements())[:8], "extra": list((g2 - up2).elements())[:8],
+                                                 "rows_first": len(first), "rows_second": len(second)})
     ctx.sample({"parents": case["world"]["parents"], "select": case["sel"], "condition": case["cond"], "scalar": case["scalar"],
                 "expected": exp[:6], "observed": got[:6]})
